@@ -288,22 +288,14 @@ func (w *TimingWheel) moveTask(task baseEntry) {
 	}
 
 	pos, circle := w.getPositionAndCircle(task.delay)
-	if pos > timer.pos {
-		timer.item.circle = circle
-		timer.item.diff = pos - timer.pos
-	} else if circle > 0 {
-		circle--
-		timer.item.circle = circle
-		timer.item.diff = w.numSlots + pos - timer.pos
-	} else {
-		timer.item.removed = true
-		newItem := &timingEntry{
-			baseEntry: task,
-			value:     timer.item.value,
-		}
-		w.slots[pos].PushBack(newItem)
-		w.setTimerPosition(pos, newItem)
+	timer.item.removed = true
+	newItem := &timingEntry{
+		baseEntry: task,
+		value:     timer.item.value,
+		circle:    circle,
 	}
+	w.slots[pos].PushBack(newItem)
+	w.setTimerPosition(pos, newItem)
 }
 
 func (w *TimingWheel) getPositionAndCircle(d time.Duration) (pos, circle int) {
